@@ -8,17 +8,24 @@ MCKwRank == [k \in MCKw |-> IF k = "ka" THEN 1 ELSE IF k = "kb" THEN 2 ELSE 3]
 RbsSigs == {s \in [r : 0..2, o : 0..2, rest : BOOLEAN, t : 0..1, rk : SUBSET MCKw, ok : SUBSET MCKw] :
               s.rk \cap s.ok = {} /\ (s.t = 1 => s.rest)}
 CSpecs == [r : 0..2, o : 0..2, rest : BOOLEAN, p : 0..1, blk : BOOLEAN]
-FmtChars == {"i", "S", "o", "|", "*", "&"}
+FmtChars == {"i", "S", "o", "|", "*", "&", "!", "?"}
+Forms == {"method", "method_id", "class_method"}      \* mrb_define_method / mrb_define_method_id / mrb_define_class_method
+GetArgs == {g \in [n : 1..3, m : 0..3] : g.m <= g.n}
 Count(f, c) == Cardinality({i \in DOMAIN f : f[i] = c})
 Formats == {f \in UNION {[1..n -> FmtChars] : n \in 0..4} :
               /\ Count(f, "|") <= 1 /\ Count(f, "*") <= 1 /\ Count(f, "&") <= 1
               /\ \A i \in DOMAIN f : f[i] = "&" => i = Len(f)
               /\ \A i, j \in DOMAIN f : (f[i] = "*" /\ j > i) => f[j] = "&"
-              /\ (Count(f, "|") = 1 => f[Len(f)] # "|")}
+              /\ (Count(f, "|") = 1 => f[Len(f)] # "|")
+              /\ Count(f, "!") + Count(f, "?") <= 1
+              /\ \A i \in DOMAIN f : f[i] = "!" => (i > 1 /\ f[i - 1] \in {"S", "o"})
+              /\ \A i \in DOMAIN f : f[i] = "?" => (i > 1 /\ f[i - 1] \in {"i", "S", "o"} /\ \E j \in 1..(i - 1) : f[j] = "|")}
 
 VARIABLE case
 MCInit == \/ Part = "rbs" /\ case \in {[kind |-> "rbs", s |-> s] : s \in RbsSigs}
-          \/ Part = "cspec" /\ case \in {[kind |-> "cspec", c |-> c] : c \in CSpecs}
+          \/ Part = "cspec" /\ case \in {[kind |-> "cspec", c |-> c, form |-> fm] : c \in CSpecs, fm \in Forms}
+          \/ Part = "cany" /\ case \in {[kind |-> "cany", form |-> fm] : fm \in Forms}
+          \/ Part = "cgetarg" /\ case \in {[kind |-> "cgetarg", g |-> g] : g \in GetArgs}
           \/ Part = "cfmt" /\ case \in {[kind |-> "cfmt", f |-> f] : f \in Formats}
 MCNext == UNCHANGED case
 MCSpec == MCInit /\ [][MCNext]_case
@@ -28,11 +35,16 @@ Determ    == case.kind = "rbs" => RbsDeterministic(case.s)
 RbsArity  == case.kind = "rbs" => RbsArityOK(case.s)
 SpecArity == case.kind = "cspec" => SpecArityOK(case.c)
 FmtArity  == case.kind = "cfmt" => FormatArityOK(case.f)
+AnyArity  == case.kind = "cany" => AnyArityOK
+GetArity  == case.kind = "cgetarg" => GetArgArityOK(case.g)
 
 Out == CASE case.kind = "rbs" -> [kind |-> "rbs", s |-> case.s, n |-> Cardinality(RbsEmissions(case.s)),
                                   e |-> CHOOSE e \in RbsEmissions(case.s) : TRUE,
                                   acc |-> [k \in 0..6 |-> RbsAccepts(case.s, k)]]
-         [] case.kind = "cspec" -> [kind |-> "cspec", c |-> case.c, macros |-> Macros(case.c), e |-> SpecEmission(case.c),
+         [] case.kind = "cany" -> [kind |-> "cany", form |-> case.form, e |-> AnyEmission, acc |-> [k \in 0..6 |-> TRUE]]
+         [] case.kind = "cgetarg" -> [kind |-> "cgetarg", g |-> case.g, e |-> GetArgEmission(case.g),
+                                      acc |-> [k \in 0..6 |-> GetArgAccepts(case.g, k)]]
+         [] case.kind = "cspec" -> [kind |-> "cspec", c |-> case.c, form |-> case.form, macros |-> Macros(case.c), e |-> SpecEmission(case.c),
                                     acc |-> [k \in 0..6 |-> CAccepts(case.c, k)], asisacc |-> [k \in 0..6 |-> CfgAccepts(SpecEmission(case.c), k)]]
          [] OTHER -> [kind |-> "cfmt", f |-> case.f, e |-> FormatEmission(case.f), acc |-> [k \in 0..6 |-> FormatAccepts(case.f, k)]]
 EmitInv == Emit => PrintT(ToJson(Out))
